@@ -173,6 +173,7 @@ def check(ctx):
 
     _round_trip(ctx, P)
     _type_hints(ctx, P)
+    _constructors(ctx, P)
     _signature_source(ctx, P)
     _equivalence(ctx, P)
 
@@ -292,6 +293,77 @@ def _type_hints(ctx, P):
             ctx.ok("R15.3", inst, "refused")
         else:
             ctx.report("R15.3", fi, inst, f"the annotation {bad_ann!r} is accepted and denotes {outs[0].value!r}, while the equivalent string '({bad_ann})->(X:left)' is refused: the guard does not look at the annotation text")
+
+
+def _constructors(ctx, P):
+    """R15.4: the two alternative constructors hand the four parsed lists to the slots of that meaning, and the signature
+    of a ufunc is taken from its type hints *including the Annotated extras* when no string is given."""
+    cls = "grid_ufunc:_GridUFuncSignature"
+    parsed = ([("PN",)], [("PP",)], [("ON",)], [("OP",)])
+    for meth, parser, arg in (("from_string", "grid_ufunc:_parse_signature_from_string", "TEXT"), ("from_type_hints", "grid_ufunc:_parse_signature_from_type_hints", {"a": 1})):
+        fi = P.func(f"{cls}.{meth}")
+        seen = []
+
+        def m_parser(ev, args, kw, node, seen=seen):
+            seen.append(list(args))
+            return tuple(list(x) for x in parsed)
+
+        ev = Evaluator(P, models={parser: m_parser})
+        from ..absint import ClassRef
+
+        try:
+            pname = fi.params[0][1]
+            outs = ev.run_paths(fi, lambda: {fi.params[0][0]: ClassRef(cls), pname: arg})
+        except (Unmodelled, IndexError) as e:
+            ctx.unknown("R15.4", meth, str(e))
+            continue
+        bad = None
+        for o in outs:
+            v = o.value
+            if o.kind != "return" or not isinstance(v, Obj):
+                bad = f"{o.kind} {v!r}"
+                continue
+            got = tuple(v.attrs.get(k) for k in ("in_ax_names", "in_ax_positions", "out_ax_names", "out_ax_positions"))
+            if got != parsed:
+                bad = f"the parsed lists end up as in_ax_names={got[0]!r}, in_ax_positions={got[1]!r}, out_ax_names={got[2]!r}, out_ax_positions={got[3]!r}"
+            if not seen or seen[-1] != [arg]:
+                bad = bad or "the parser is not given the caller's text / hints"
+        if bad:
+            ctx.report("R15.4", fi, f"{meth} fills the signature object", bad)
+        else:
+            ctx.ok("R15.4", f"{meth} fills the signature object", "names and positions of inputs and outputs in their own slots")
+    # type hints are read with their Annotated extras
+    fi = P.func("grid_ufunc:GridUFunc._get_signature_from_str_or_type_hints")
+    calls = []
+
+    def m_hints(ev, args, kw, node):
+        calls.append((list(args), dict(kw)))
+        return {"a": _hint("X:center"), "return": _hint("X:left")}
+
+    def hasattr_hook(ev, f, args, kw, node):
+        from ..absint import Builtin
+
+        if isinstance(f, Builtin) and f.name == "hasattr" and len(args) == 2 and isinstance(args[1], str):
+            return args[1] in args[0].attrs if isinstance(args[0], Obj) else False
+        return NotImplemented
+
+    made = []
+    ev = Evaluator(P, models={"typing.get_type_hints": m_hints, f"{cls}.from_type_hints": lambda ev_, a, k, n: made.append(("hints", a)) or Obj("Signature", "from-hints"),
+                              f"{cls}.from_string": lambda ev_, a, k, n: made.append(("string", a)) or Obj("Signature", "from-string")}, call_hook=hasattr_hook)
+    try:
+        uf = Obj("func", "ufunc")
+        outs = ev.run_paths(fi, lambda: dict(ufunc=uf, str_sig=None))
+        bad = None
+        if not calls or calls[-1][1].get("include_extras") is not True:
+            bad = "typing.get_type_hints is not asked for the Annotated extras (include_extras=True): the axis annotations are stripped and never seen"
+        elif not all(o.kind == "return" and isinstance(o.value, Obj) and o.value.name == "from-hints" for o in outs):
+            bad = f"annotated hints without a string signature do not yield the signature parsed from the hints ({[(o.kind, o.value) for o in outs]})"
+        if bad:
+            ctx.report("R15.4", fi, "signature from type hints", bad)
+        else:
+            ctx.ok("R15.4", "signature from type hints", "hints read with extras, parsed by from_type_hints")
+    except Unmodelled as e:
+        ctx.unknown("R15.4", "signature from type hints", str(e))
 
 
 def _canon(sig):
